@@ -970,9 +970,9 @@ peg::parser! {
         rule tilde_expression() -> TildeExpr =
             &tilde_terminator() { TildeExpr::Home } /
             "+" &tilde_terminator() { TildeExpr::WorkingDir } /
-            plus:("+"?) n:$(['0'..='9']*) &tilde_terminator() { TildeExpr::NthDirFromTopOfDirStack { n: n.parse().unwrap(), plus_used: plus.is_some() } } /
+            plus:("+"?) n:$(['0'..='9']*) &tilde_terminator() {? Ok(TildeExpr::NthDirFromTopOfDirStack { n: n.parse().map_err(|_| "number out of range")?, plus_used: plus.is_some() }) } /
             "-" &tilde_terminator() { TildeExpr::OldWorkingDir } /
-            "-" n:$(['0'..='9']*) &tilde_terminator() { TildeExpr::NthDirFromBottomOfDirStack { n: n.parse().unwrap() } } /
+            "-" n:$(['0'..='9']*) &tilde_terminator() {? Ok(TildeExpr::NthDirFromBottomOfDirStack { n: n.parse().map_err(|_| "number out of range")? }) } /
             user:$(portable_filename_char()*) &tilde_terminator() { TildeExpr::UserHome(user.to_owned()) }
 
         rule tilde_terminator() = ['/' | ':' | ';' | '}'] / ![_]
